@@ -38,6 +38,9 @@ func (c *Ctx) ruleWalkResultDiscarded(rule string) {
 				if ps == nil || ps.Results().Len() != 1 || !types.Identical(ps.Results().At(0).Type(), errT) {
 					continue
 				}
+				if ps.Params().Len() == 0 {
+					continue // not a walk: nothing is handed to the function (a once-only initialiser and the like)
+				}
 				n++
 				key := f.Name() + " | " + cal.Name() + " callback"
 				bad := ast.Node(nil)
